@@ -6,6 +6,7 @@ package main
 
 import (
 	"fmt"
+	"math"
 	"reflect"
 	"regexp"
 	"sort"
@@ -84,6 +85,13 @@ func oracleC16Single(g *gen, ctx *engineCtx, cfg extCfg) {
 	tu := &gtfsrt.TripUpdate{Trip: td}
 	if g.coin(0.3) {
 		tu.Vehicle = &gtfsrt.VehicleDescriptor{Id: ptr("original-vehicle")}
+		if g.coin(0.5) {
+			// a descriptor that already names the train but carries more: the derived vehicle is identified by the train id alone
+			tu.Vehicle = &gtfsrt.VehicleDescriptor{Id: ptr(train), Label: ptr("label")}
+			if g.coin(0.3) {
+				tu.Vehicle.LicensePlate = ptr("plate")
+			}
+		}
 	}
 	var firstTime int64
 	firstKnown := false
@@ -102,6 +110,10 @@ func oracleC16Single(g *gen, ctx *engineCtx, cfg extCfg) {
 				return &gtfsrt.TripUpdate_StopTimeEvent{}
 			case 2:
 				return &gtfsrt.TripUpdate_StopTimeEvent{Time: ptr(int64(0))}
+			case 3:
+				// the comparison with the feed timestamp is one of integers, over the whole int64 range
+				return &gtfsrt.TripUpdate_StopTimeEvent{Time: ptr(g.pick64([]int64{math.MinInt64, math.MinInt64 + 1000, math.MinInt64 + int64(ts), math.MinInt64 + int64(ts) + 1,
+					math.MaxInt64, math.MaxInt64 - int64(ts), -1, 1, -int64(ts), math.MinInt32, math.MaxInt32, 1 << 32, int64(ts) - (1 << 32), int64(ts) + (1 << 32)}))}
 			default:
 				return &gtfsrt.TripUpdate_StopTimeEvent{Time: ptr(int64(ts) + int64(g.r.Intn(3)) - 1)}
 			}
@@ -114,6 +126,9 @@ func oracleC16Single(g *gen, ctx *engineCtx, cfg extCfg) {
 		firstKnown = firstTime != 0
 	}
 	m := &gtfsrt.FeedMessage{Header: header(ts), Entity: []*gtfsrt.FeedEntity{{Id: ptr("1"), TripUpdate: tu}}}
+	if g.coin(0.2) {
+		m.Entity[0].IsDeleted = ptr(g.coin(0.7)) // a flag the parser does not interpret: the entity is processed like any other
+	}
 	b := marshal(m)
 	dm := decodeMsg(b)
 	r, err, cr := parseRT(b, nil, cfg)
@@ -145,8 +160,8 @@ func oracleC16Single(g *gen, ctx *engineCtx, cfg extCfg) {
 		ctx.violate("c16-start-time", fmt.Sprintf("start time %v (has=%v) for origin time %06d, expected %v", t.ID.StartTime, t.ID.HasStartTime, origin, wantStart), replay)
 	}
 	if assigned && train != "" {
-		if t.Vehicle == nil || t.Vehicle.ID == nil || t.Vehicle.ID.ID != train {
-			ctx.violate("c16-vehicle-from-train-id", "assigned trip is not linked to a vehicle whose id is the train id", replay)
+		if t.Vehicle == nil || t.Vehicle.ID == nil || *t.Vehicle.ID != (gtfs.VehicleID{ID: train}) {
+			ctx.violate("c16-vehicle-from-train-id", "assigned trip is not linked to a vehicle identified by the train id (and nothing else)", replay)
 		}
 	}
 	if !assigned && tu.Vehicle == nil && t.Vehicle != nil {
@@ -329,6 +344,24 @@ func (g *gen) elevatorFeed() (*gtfsrt.FeedMessage, int) {
 	}
 	for k := g.r.Intn(5); k > 0; k-- {
 		m.Entity = append(m.Entity, &gtfsrt.FeedEntity{Id: ptr(g.pick(alertIDs[:5]) + fmt.Sprint(k)), Alert: g.alert(true)})
+	}
+	// entities that carry a vehicle position or trip update besides an alert are not alert entities, whatever their id
+	// looks like: they join no elevator group and are parsed as the vehicle / trip they carry
+	if g.coin(0.4) {
+		for k := 1 + g.r.Intn(2); k > 0; k-- {
+			st := stations[g.r.Intn(len(stations))]
+			id := st + g.pick([]string{"N", "S", ""}) + "#EL" + g.pick([]string{"123", "9", "200X", ""})
+			a := g.alert(true)
+			a.InformedEntity = append(a.InformedEntity, &gtfsrt.EntitySelector{StopId: ptr(st + "S")})
+			e := &gtfsrt.FeedEntity{Id: ptr(id), Alert: a}
+			if g.coin(0.5) {
+				e.Vehicle = g.vehiclePosition(1700000000)
+				e.Vehicle.Vehicle = &gtfsrt.VehicleDescriptor{Id: ptr(fmt.Sprintf("mixed-%d", k))}
+			} else {
+				e.TripUpdate = &gtfsrt.TripUpdate{Trip: &gtfsrt.TripDescriptor{TripId: ptr(fmt.Sprintf("mixed-trip-%d", k))}}
+			}
+			m.Entity = append(m.Entity, e)
+		}
 	}
 	g.r.Shuffle(len(m.Entity), func(i, j int) { m.Entity[i], m.Entity[j] = m.Entity[j], m.Entity[i] })
 	return m, nEl
